@@ -283,7 +283,7 @@ func vRunGetScenario(scn vGetScenario) []map[string]interface{} {
 				want = want[:len(p)]
 			}
 			// io.ReaderAt allows (n < len(p), io.EOF) at the end of the data: a successful short read
-			ok = err == nil || (err == io.EOF && n == len(want) && n < len(p))
+			ok = err == nil || (err == io.EOF && n == len(want))
 			if ok {
 				match = bytes.Equal(p[:n], want)
 			}
@@ -333,7 +333,7 @@ func vRunGetScenario(scn vGetScenario) []map[string]interface{} {
 						p := make([]byte, L)
 						g.log(map[string]interface{}{"ev": "call", "r": r, "api": "readat"})
 						n, err := kc.ReadAt(loc, p, 0)
-						ok := err == nil
+						ok := err == nil || (err == io.EOF && n == L) // io.ReaderAt may report EOF with a full read at the end
 						g.log(map[string]interface{}{"ev": "ret", "r": r, "ok": ok, "match": ok && bytes.Equal(p[:n], data)})
 						if ok {
 							return
